@@ -947,9 +947,17 @@ impl MigrationState {
     ) {
         for tx in &mut self.transactions {
             if tx.id() == id {
-                tx.pczt = proven_pczt;
-                tx.state = MigrationTxState::Proved;
-                tx.lock_owner = lock_owner;
+                // A proof arriving for a transaction that is already in flight or mined is
+                // stale (the row was proved, and submitted, by an earlier pass): recording it
+                // would move the row back to `Proved` and replace the bytes that were broadcast.
+                if !matches!(
+                    tx.state,
+                    MigrationTxState::Broadcast { .. } | MigrationTxState::Mined { .. }
+                ) {
+                    tx.pczt = proven_pczt;
+                    tx.state = MigrationTxState::Proved;
+                    tx.lock_owner = lock_owner;
+                }
                 break;
             }
         }
